@@ -20,7 +20,8 @@ def seeded(ctx, n):
             nat = rng.randint(1, 12)
             scripts = []
             for _k in range(nat):
-                w = rng.choice([[], [1], [mem - 1] if mem > 1 else [1], [mem], [mem + 1], [3, mem, 2], [mem * 3], [1] * 5])
+                w = rng.choice([[], [1], [mem - 1] if mem > 1 else [1], [mem], [mem + 1], [3, mem, 2], [mem * 3], [1] * 5,
+                                [0], [4, 0], [0, 4], [mem + 2, 0, 0], [1, 0, 1]])
                 scripts.append({"status": rng.choice([0, 200, 201, 404, 500, 502, 502, 504]), "writes": w,
                                 "read": rng.choice(["none", "half", "all"]), "mut": rng.choice(["none", "hdr", "url"])})
             steps.append({"method": rng.choice(["GET", "POST"]), "framing": rng.choice(["declared", "chunked"]),
